@@ -113,12 +113,12 @@ def run(ctx):
     b = ctx.go_test_binary("cache", "h_cache")
     if b:
         ctx.correspond(b, "TestVerifC11", "svdriver_c11", "c11",
-                       env={"VERIF_MODE": "both", "VERIF_N": 600 if quick else 15000,
-                            "VERIF_ROUNDS": 10 if quick else 80, "VERIF_ITERS": 250 if quick else 400})
+                       env={"VERIF_MODE": "both", "VERIF_N": 600 if quick else 8000,
+                            "VERIF_ROUNDS": 10 if quick else 40, "VERIF_ITERS": 250 if quick else 400})
     if not quick:
         br = ctx.go_test_binary("cache", "h_cache_race", race=True)
         if br:
-            _race(ctx, br, {"VERIF_MODE": "conc", "VERIF_ROUNDS": 40, "VERIF_ITERS": 300})
+            _race(ctx, br, {"VERIF_MODE": "conc", "VERIF_ROUNDS": 20, "VERIF_ITERS": 300})
     return ctx.finish(
         level="proof",
         rule="sequential: 9 scripted edge histories (reader held across eviction, buffer recycling and re-add; "
